@@ -160,7 +160,7 @@ def worker(spec):
                 kept.append((i, len(results[i]), v, snap))
             results[i].append(["ok", snap])
         except Exception as e:      # noqa
-            results[i].append([type(e).__name__, str(getattr(e, "message", "") or e)[:80]])
+            results[i].append([type(e).__name__, str(getattr(e, "message", "") or e)[:80], getattr(e, "consecutive_failures_count", None)])
 
     async def flow(loop):
         fams = {"ET": g.ET, "DT": g.DT, "ES": g.ES}
@@ -413,6 +413,11 @@ def capability_scenarios(seed):
         out.append({"seed": f"{seed}:cap:{a}:{b}", "n_random_merges": 2, "n_concurrent": 1, "capabilities": True,
                     "objects": [{"template": a, "port": 8899, "seed": f"{seed}:cA{len(out)}", "calls": es_calls},
                                 {"template": b, "port": 8899, "seed": f"{seed}:cB{len(out)}", "calls": es_calls}]})
+    # ... over many polls (anything that counts polls, or retries something every n-th poll, must count per object)
+    for a, b, na, nb in (("DTn", "DT", 24, 11), ("DTn", "DTn", 23, 9), ("ETr", "ET205", 22, 7), ("ETr", "ETr", 21, 13)):
+        out.append({"seed": f"{seed}:capmany:{a}:{b}", "n_random_merges": 2, "n_concurrent": 0, "capabilities": True,
+                    "objects": [{"template": a, "port": 8899, "seed": f"{seed}:mA{len(out)}", "calls": [["read_runtime_data"]] * na},
+                                {"template": b, "port": 8899, "seed": f"{seed}:mB{len(out)}", "calls": [["read_runtime_data"]] * nb}]})
     for a, b in (("DTn", "DT"), ("DT", "DTn"), ("DTn", "DTn"), ("ETr", "ET205"), ("ET205", "ETr"), ("ETr", "ET745"), ("ETr", "ETr")):
         out.append({"seed": f"{seed}:cap:{a}:{b}", "n_random_merges": 2, "n_concurrent": 1, "capabilities": True,
                     "objects": [{"template": a, "port": 8899, "seed": f"{seed}:cA{len(out)}", "calls": rr},
@@ -510,6 +515,12 @@ def unreachable_scenarios(seed):
             out.append({"seed": f"{seed}:unreach:{a}:{b}:{k}", "n_random_merges": 1, "n_concurrent": 1, "unreachable": True,
                         "objects": [{"template": a, "port": 8899, "seed": f"{seed}:uA{len(out)}", "calls": rr * k, "endpoint_fail": k},
                                     {"template": b, "port": 8899, "seed": f"{seed}:uB{len(out)}", "calls": rr * 2 + [["read_setting", "grid_export_limit"]] if not b.startswith("ES") else rr * 3}]})
+    # both inverters stop answering: each object's failures (and the streak they report) are its own
+    for a, b in (("ET205", "ET205"), ("DT", "ET205"), ("ESv1", "DT"), ("ESv1", "ESv1")):
+        ca = [["read_runtime_data"], ["read_runtime_data"], ["read_runtime_data"]]
+        out.append({"seed": f"{seed}:bothsilent:{a}:{b}", "n_random_merges": 3, "n_concurrent": 1, "lossy": True,
+                    "objects": [{"template": a, "port": 8899, "seed": f"{seed}:sA{len(out)}", "calls": ca, "silent": True, "retries": 0},
+                                {"template": b, "port": 8899, "seed": f"{seed}:sB{len(out)}", "calls": ca[:2], "silent": True, "retries": 1}]})
     return out
 
 
